@@ -210,3 +210,12 @@ claim(
     "abstract interpretation with position-identifying distinct values; single-entry perturbation tables for the predicates; polynomial identity over Q(i) for the complex split; syntax-tree who-may-sort rule",
     "DESIGN.md §5 C39",
 )
+
+claim(
+    "C40",
+    "other",
+    "Decides TreeClass.aset together with its path parser and _aset by interpreting the real method on a nested configuration object whose containers are genuine shared-reference lists and dicts, for every existing path up to depth four over attribute / list index (incl. negative) / dict key steps and the create_new_ok cases (new attribute, new key; refused when the flag is off or the missing step is not last). aset depends on the path only through the step kinds and on whether the last step exists, so this is exhaustive for that depth. Per path, against a structural snapshot of the heap taken before the call: the receiver and everything reachable from it are unchanged; the result has the receiver's class and equals the original with exactly that path replaced; every container holding the replaced slot is a fresh copy in the result. The parser accepts the documented syntax and rejects malformed paths. Deeper paths and exotic container types are not decided.",
+    TB + "; native shared-reference containers in the interpreter heap; model of pytreeclass .at[method](...) as 'run on a shallow copy'",
+    "abstract interpretation with a concrete shared-reference heap; before/after heap snapshot comparison and aliasing (ownership) check along the path",
+    "DESIGN.md §5 C40",
+)
